@@ -308,6 +308,8 @@ pub fn gen_history(rng: &mut Rng, p: &Profile) -> Seq {
             10 => Op::Cmp(p.cmp_mode),
             11 => {
                 let size_class = if p.bulk_max > 8 { rng.below(100) } else { 0 };
+                // (long runs: fewer of the larger batches, the model's cost grows with them)
+                let size_class = if p.n_ops > 200 && size_class >= 62 && rng.chance(4, 5) { 0 } else { size_class };
                 let n = if size_class < 62 {
                     rng.below(9) as usize
                 } else if size_class < 92 {
